@@ -6,6 +6,7 @@ import Driver.C07
 import Driver.C29
 import Driver.Pool
 import Driver.C25
+import Driver.C31
 open Mitum Mitum.Driver
 
 def step (line : String) : String :=
@@ -19,6 +20,7 @@ def step (line : String) : String :=
   | "C24" :: ts => stepC24 ts
   | "C25" :: ts => stepC25 ts
   | "C29" :: ts => stepC29 ts
+  | "C31" :: ts => stepC31 ts
   | "C35" :: ts => stepC35 ts
   | "C38" :: ts => stepC38 ts
   | _ => "bad-op"
